@@ -44,6 +44,27 @@ pub fn run(tier: &str) -> Result<Report, String> {
             sem::sweep(&mut rep, &ctx, &fs, ck);
             // the same with labels whose NAMES look like constants / digits / quantifier symbols
             if desc == "mixed" {
+                // ... the long spellings of the quantifiers (\\exists, \\forall, \\bind, \\jump) mean the same
+                {
+                    use rayon::prelude::*;
+                    let bad: Vec<Violation> = fs
+                        .par_iter()
+                        .filter_map(|f| {
+                            let short = f.show(&ctx.user);
+                            let long = short.replace("3{", "\\exists {").replace("V{", "\\forall {").replace("!{", "\\bind {").replace("@{", "\\jump {");
+                            let expected = ctx.expected(f);
+                            let what = match ctx.ext_dirty(&long) {
+                                crate::sweep::Got::Set(s) => ctx.diff_dirty(&s, &expected),
+                                crate::sweep::Got::Err(e) => Some(format!("Err: {e}")),
+                                crate::sweep::Got::Panic(p) => Some(format!("panic: {p}")),
+                            };
+                            what.map(|w| Violation { case: json!({"kind": "none"}), what: format!("long spelling `{long}` of `{short}` on {} labels={desc}: model_check_extended_formula_dirty: {w}", b.name), size: f.size() })
+                        })
+                        .collect();
+                    rep.evaluations += fs.len() as u64;
+                    rep.add_count("long_spelling_cases", fs.len() as u64);
+                    rep.violations.extend(bad.into_iter().take(20));
+                }
                 let odd = ctx.with_label_names(&["1", "false", "True"][..ctx.labels.wild.len().min(3)], &["0", "true", "V"][..ctx.labels.dom.len().min(3)]);
                 let small: Vec<_> = fs.iter().filter(|f| f.size() <= 4).cloned().collect();
                 sem::sweep(&mut rep, &odd, &small, ck);
@@ -101,7 +122,7 @@ pub fn run(tier: &str) -> Result<Report, String> {
         rep.set("wide_models", json!(big));
     }
     rep.set("slices", json!(slices));
-    rep.rule = "all closed extended formulae with at most max_nodes nodes that contain a wild-card or a domain, plus the extended template families (nested and repeated domains, the same inner domain under different outer domains, pattern and duplicate shapes inside domain scopes) and the pair family (every ordered pair of the collision alphabet joined by & / |, and nested as Q{x} in %d%: (A & @{x}: B)), x every label family (context-set assignment; the mixed family also under the label names 1, false, True / 0, true, V and under non-ASCII label names), through model_check_extended_formula(_dirty), compared with the explicit-state oracle on every state x valid colour (and: raw results inside the unit set, independent of spare variables); plus the operator sweep: every unary/binary operator and every quantifier form with/without domains on EVERY coloured set (and every pair of sets) of tiny networks; plus, on synthetic wide models with more than 2^53 state x colour pairs, the three README equivalences for 7 bodies x 7 domains (full, empty, all but one state, all but one (state, colour) pair, one state, ...) and the closed forms `!{x} in %d%: True` = d, `3{x} in %d%: @{x}: ~%d%` = empty, `V{x} in %d%: @{x}: %d%` = everything; distinct_nontrivial = distinct non-trivial (network, labels, verdict table)".into();
+    rep.rule = "all closed extended formulae with at most max_nodes nodes that contain a wild-card or a domain, plus the extended template families (nested and repeated domains, the same inner domain under different outer domains, pattern and duplicate shapes inside domain scopes) and the pair family (every ordered pair of the collision alphabet joined by & / |, and nested as Q{x} in %d%: (A & @{x}: B)), x every label family (context-set assignment; the mixed family also under the label names 1, false, True / 0, true, V, under non-ASCII label names, and with every quantifier written in its long spelling \\exists / \\forall / \\bind / \\jump), through model_check_extended_formula(_dirty), compared with the explicit-state oracle on every state x valid colour (and: raw results inside the unit set, independent of spare variables); plus the operator sweep: every unary/binary operator and every quantifier form with/without domains on EVERY coloured set (and every pair of sets) of tiny networks; plus, on synthetic wide models with more than 2^53 state x colour pairs, the three README equivalences for 7 bodies x 7 domains (full, empty, all but one state, all but one (state, colour) pair, one state, ...) and the closed forms `!{x} in %d%: True` = d, `3{x} in %d%: @{x}: ~%d%` = empty, `V{x} in %d%: @{x}: %d%` = everything; distinct_nontrivial = distinct non-trivial (network, labels, verdict table)".into();
     Ok(rep)
 }
 
